@@ -17,7 +17,7 @@ Definition model_bin (h : helper) (x y : num) : obs :=
   | Some r => ONres r
   | None => match helper_fallthrough h with
             | FTPanic => OFallthroughPanic
-            | FTNilThenDeepEqual => ONres (NRBool false)   (* DeepEqual of two different numeric types / kinds *)
+            | FTNilThenDeepEqual | FTNilSeqDeepEqual => ONres (NRBool false)   (* DeepEqual of two different numeric types / kinds *)
             | FTUnrecognised => OOther
             end
   end.
